@@ -201,50 +201,74 @@ def showBool (b : Bool) : String := if b then "true" else "false"
 
 def bad : M String := pure "bad-op"
 
+/-- the element-level core of the crate, as the driver calls it: either the hand-written model
+(`modelOps`, the definitions the theorems of `Props/` are about) or the definitions translated from
+the Rust source on this run (`srcOps` in `DriverSrc.lean`, from `Generated/Core.lean`) -/
+structure CoreOps where
+  pushBack : Elem → M (Option Elem) := CircBuf.pushBack
+  pushFront : Elem → M (Option Elem) := CircBuf.pushFront
+  tryPushBack : Elem → M (Except Elem Unit) := CircBuf.tryPushBack
+  tryPushFront : Elem → M (Except Elem Unit) := CircBuf.tryPushFront
+  popBack : M (Option Elem) := CircBuf.popBack
+  popFront : M (Option Elem) := CircBuf.popFront
+  swap : Nat → Nat → M Unit := CircBuf.swap
+  swapRemoveBack : Nat → M (Option Elem) := CircBuf.swapRemoveBack
+  swapRemoveFront : Nat → M (Option Elem) := CircBuf.swapRemoveFront
+  truncateBack : Nat → M Unit := CircBuf.truncateBack
+  truncateFront : Nat → M Unit := CircBuf.truncateFront
+  clear : M Unit := CircBuf.clear
+  get : Nat → M (Option Nat) := CircBuf.get?
+  nthBack : Nat → M (Option Nat) := CircBuf.nthBack?
+  front : M (Option Nat) := CircBuf.front?
+  back : M (Option Nat) := CircBuf.back?
+  asSlices : M (View × View) := CircBuf.asSlices
+
+def modelOps : CoreOps := {}
+
 /-- execute one operation (tokens without fault suffixes); returns the `ret` field -/
-def runOp (toks : List String) : M String := do
+def runOp (o : CoreOps) (toks : List String) : M String := do
   match toks with
   | ["push_back", v] => match parseNat v with
-    | some v => do let e ← newGiven v; let r ← pushBack e; pure (showOwned r)
+    | some v => do let e ← newGiven v; let r ← o.pushBack e; pure (showOwned r)
     | none => bad
   | ["push_front", v] => match parseNat v with
-    | some v => do let e ← newGiven v; let r ← pushFront e; pure (showOwned r)
+    | some v => do let e ← newGiven v; let r ← o.pushFront e; pure (showOwned r)
     | none => bad
   | ["try_push_back", v] => match parseNat v with
     | some v => do
       let e ← newGiven v
-      match ← tryPushBack e with
+      match ← o.tryPushBack e with
       | .ok _ => pure "Ok"
       | .error x => pure s!"Err({showElem x})"
     | none => bad
   | ["try_push_front", v] => match parseNat v with
     | some v => do
       let e ← newGiven v
-      match ← tryPushFront e with
+      match ← o.tryPushFront e with
       | .ok _ => pure "Ok"
       | .error x => pure s!"Err({showElem x})"
     | none => bad
-  | ["pop_back"] => do let r ← popBack; pure (showOwned r)
-  | ["pop_front"] => do let r ← popFront; pure (showOwned r)
+  | ["pop_back"] => do let r ← o.popBack; pure (showOwned r)
+  | ["pop_front"] => do let r ← o.popFront; pure (showOwned r)
   | ["remove", i] => match parseNat i with
     | some i => do let r ← remove i; pure (showOwned r)
     | none => bad
   | ["swap", i, j] => match parseNat i, parseNat j with
-    | some i, some j => do swap i j; pure "-"
+    | some i, some j => do o.swap i j; pure "-"
     | _, _ => bad
   | ["swap_remove_back", i] => match parseNat i with
-    | some i => do let r ← swapRemoveBack i; pure (showOwned r)
+    | some i => do let r ← o.swapRemoveBack i; pure (showOwned r)
     | none => bad
   | ["swap_remove_front", i] => match parseNat i with
-    | some i => do let r ← swapRemoveFront i; pure (showOwned r)
+    | some i => do let r ← o.swapRemoveFront i; pure (showOwned r)
     | none => bad
   | ["truncate_back", n] => match parseNat n with
-    | some n => do truncateBack n; pure "-"
+    | some n => do o.truncateBack n; pure "-"
     | none => bad
   | ["truncate_front", n] => match parseNat n with
-    | some n => do truncateFront n; pure "-"
+    | some n => do o.truncateFront n; pure "-"
     | none => bad
-  | ["clear"] => do clear; pure "-"
+  | ["clear"] => do o.clear; pure "-"
   | ["fill", v] => match parseNat v with
     | some v => do let e ← newGiven v; fill e; pure "-"
     | none => bad
@@ -266,22 +290,22 @@ def runOp (toks : List String) : M String := do
     let b ← getBuf
     pure (showView b v)
   | ["get", i] => match parseNat i with
-    | some i => do let r ← get? i; pure (showRef (← getBuf) r)
+    | some i => do let r ← o.get i; pure (showRef (← getBuf) r)
     | none => bad
   | ["nth_front", i] => match parseNat i with
     | some i => do let r ← nthFront? i; pure (showRef (← getBuf) r)
     | none => bad
   | ["nth_back", i] => match parseNat i with
-    | some i => do let r ← nthBack? i; pure (showRef (← getBuf) r)
+    | some i => do let r ← o.nthBack i; pure (showRef (← getBuf) r)
     | none => bad
-  | ["front"] => do let r ← front?; pure (showRef (← getBuf) r)
-  | ["back"] => do let r ← back?; pure (showRef (← getBuf) r)
+  | ["front"] => do let r ← o.front; pure (showRef (← getBuf) r)
+  | ["back"] => do let r ← o.back; pure (showRef (← getBuf) r)
   | ["index", i] => match parseNat i with
     | some i => do let r ← index i; pure (showRef (← getBuf) (some r))
     | none => bad
   | ["get_mut", i] => match parseNat i with
     | some i => do
-      let r ← get? i; let s := showRef (← getBuf) r
+      let r ← o.get i; let s := showRef (← getBuf) r
       (match r with | some k => bump k | none => pure ()); pure s
     | none => bad
   | ["nth_front_mut", i] => match parseNat i with
@@ -291,14 +315,14 @@ def runOp (toks : List String) : M String := do
     | none => bad
   | ["nth_back_mut", i] => match parseNat i with
     | some i => do
-      let r ← nthBack? i; let s := showRef (← getBuf) r
+      let r ← o.nthBack i; let s := showRef (← getBuf) r
       (match r with | some k => bump k | none => pure ()); pure s
     | none => bad
   | ["front_mut"] => do
-    let r ← front?; let s := showRef (← getBuf) r
+    let r ← o.front; let s := showRef (← getBuf) r
     (match r with | some k => bump k | none => pure ()); pure s
   | ["back_mut"] => do
-    let r ← back?; let s := showRef (← getBuf) r
+    let r ← o.back; let s := showRef (← getBuf) r
     (match r with | some k => bump k | none => pure ()); pure s
   | ["index_mut", i] => match parseNat i with
     | some i => do
@@ -306,11 +330,11 @@ def runOp (toks : List String) : M String := do
       bump r; pure s
     | none => bad
   | ["as_slices"] => do
-    let (f, k) ← asSlices
+    let (f, k) ← o.asSlices
     let b ← getBuf
     pure (showView b f ++ "/" ++ showView b k)
   | ["as_mut_slices"] => do
-    let (f, k) ← asSlices
+    let (f, k) ← o.asSlices
     let b ← getBuf
     let s := showView b f ++ "/" ++ showView b k
     bumpAll (f.slots ++ k.slots)
@@ -481,7 +505,7 @@ def parseKind : String → Option Kind
   | _ => none
 
 /-- one protocol step: new state and the output line -/
-def stepLine (s : Sys) (line : String) : Sys × String :=
+def stepLine (o : CoreOps) (s : Sys) (line : String) : Sys × String :=
   let toks := (line.trimAscii.toString.splitOn " ").filter (· ≠ "")
   match toks with
   | ["case", n, k] =>
@@ -497,7 +521,7 @@ def stepLine (s : Sys) (line : String) : Sys × String :=
     | none => (s, "bad-op")
     | some faults =>
       let s0 : Sys := { s with log := [], faults := faults }
-      let (r, s1) := runOp opToks s0
+      let (r, s1) := runOp o opToks s0
       let ret := match r with
         | .ok str => str
         | .error p => showPanic p
@@ -508,19 +532,14 @@ def stepLine (s : Sys) (line : String) : Sys × String :=
       let s2 : Sys := { s1 with log := [], faults := {} }
       (s2, s!"{ret}|{evstr}|{b.start} {b.size}|{windowOf b}|{nalloc}|ok")
 
-partial def loop (h : IO.FS.Stream) (out : IO.FS.Stream) (s : Sys) : IO Unit := do
+partial def loop (o : CoreOps) (h : IO.FS.Stream) (out : IO.FS.Stream) (s : Sys) : IO Unit := do
   let line ← h.getLine
   if line.isEmpty then return ()
   if line.trimAscii.toString.isEmpty then
-    loop h out s
+    loop o h out s
   else
-    let (s', o) := stepLine s line
-    out.putStrLn o
-    loop h out s'
+    let (s', ln) := stepLine o s line
+    out.putStrLn ln
+    loop o h out s'
 
 end CircBuf.Driver
-
-def main : IO Unit := do
-  let stdin ← IO.getStdin
-  let stdout ← IO.getStdout
-  CircBuf.Driver.loop stdin stdout { buf := CircBuf.CB.new 0 }
